@@ -780,12 +780,31 @@ def unroll_literal_loops(asts, ref):
                             used_later = any(isinstance(x, ast.Name) and x.id in tnames for later in lst[i + 1:] for x in ast.walk(later))
                             if used_later:
                                 continue
+                            # iteration-private locals (first touched by a plain top-level assignment of the body, never
+                            # mentioned outside the loop) get one name per iteration: each is then bound once
+                            private = []
+                            for b in st.body:
+                                if isinstance(b, ast.Assign) and len(b.targets) == 1 and isinstance(b.targets[0], ast.Name):
+                                    nm = b.targets[0].id
+                                    if nm in private or nm in tnames:
+                                        continue
+                                    earlier = any(isinstance(x, ast.Name) and x.id == nm for bb in st.body[:st.body.index(b)] for x in ast.walk(bb)) \
+                                        or any(isinstance(x, ast.Name) and x.id == nm for x in ast.walk(b.value))
+                                    outside = sum(1 for x in ast.walk(fn) if isinstance(x, ast.Name) and x.id == nm) \
+                                        - sum(1 for x in ast.walk(st) if isinstance(x, ast.Name) and x.id == nm)
+                                    if not earlier and not outside:
+                                        private.append(nm)
                             new = []
-                            for e in st.iter.elts:
+                            for it, e in enumerate(st.iter.elts):
                                 vals = [e] if isinstance(st.target, ast.Name) else list(e.elts)
                                 m = dict(zip(tnames, vals))
                                 for b in st.body:
-                                    nb = _Subst(m).visit(copy.deepcopy(b))
+                                    nb = copy.deepcopy(b)
+                                    if private and len(st.iter.elts) > 1:
+                                        for x in ast.walk(nb):
+                                            if isinstance(x, ast.Name) and x.id in private:
+                                                x.id = "%s__%d" % (x.id, it)
+                                    nb = _Subst(m).visit(nb)
                                     ast.fix_missing_locations(nb)
                                     new.append(nb)
                             lst[i:i + 1] = new
@@ -830,6 +849,40 @@ def _load(e):
     return e
 
 
+def _ancestors_upto(node, top):
+    out = []
+    while getattr(node, "_parent", None) is not None and node is not top:
+        node = node._parent
+        out.append(node)
+    return out
+
+
+def _is_private_sentinel(fn, name):
+    """`name` is bound once at module level to object() and otherwise only read in `is` / `is not` tests or as a
+    default argument of .pop / .get / getattr (never stored in a container, never passed on)"""
+    mod = fn
+    while getattr(mod, "_parent", None) is not None:
+        mod = mod._parent
+    if not isinstance(mod, ast.Module):
+        return False
+    binds = [b for b in mod.body if isinstance(b, ast.Assign) and len(b.targets) == 1 and isinstance(b.targets[0], ast.Name)
+             and b.targets[0].id == name]
+    if len(binds) != 1 or not (isinstance(binds[0].value, ast.Call) and isinstance(binds[0].value.func, ast.Name)
+                               and binds[0].value.func.id == "object" and not binds[0].value.args):
+        return False
+    for x in ast.walk(mod):
+        if isinstance(x, ast.Name) and x.id == name and x is not binds[0].targets[0]:
+            par = getattr(x, "_parent", None)
+            if isinstance(par, ast.Compare) and all(isinstance(o, (ast.Is, ast.IsNot)) for o in par.ops):
+                continue
+            if isinstance(par, ast.Call) and x in par.args and (
+                    (isinstance(par.func, ast.Attribute) and par.func.attr in ("pop", "get") and par.args.index(x) == 1)
+                    or (isinstance(par.func, ast.Name) and par.func.id == "getattr" and par.args.index(x) == 2)):
+                continue
+            return False
+    return True
+
+
 def _norm_block(lst, fn):
     """one pass over a statement list; returns number of rewrites"""
     n = 0
@@ -849,6 +902,24 @@ def _norm_block(lst, fn):
                 defs = [s for s in lst[:i] if isinstance(s, ast.Assign) and len(s.targets) == 1
                         and isinstance(s.targets[0], ast.Name) and s.targets[0].id == l.id]
                 alldefs = [x for x in ast.walk(fn) if isinstance(x, ast.Name) and x.id == l.id and isinstance(x.ctx, ast.Store)]
+                if not defs and len(alldefs) == 1:
+                    # the local was bound in an enclosing block: fine when this statement is the function's only write to the
+                    # attribute (nothing can have changed it in between) and the binding comes first
+                    outer = [s for s in ast.walk(fn) if isinstance(s, ast.Assign) and len(s.targets) == 1 and isinstance(s.targets[0], ast.Name)
+                             and s.targets[0].id == l.id and _same(s.value, _load(t))]
+                    stores = [x for x in ast.walk(fn) if isinstance(x, ast.Attribute) and isinstance(x.ctx, ast.Store) and _same(_load(x), _load(t))]
+                    encl = st
+                    dominated = False
+                    while outer and getattr(encl, "_parent", None) is not None and encl is not fn:
+                        par = encl._parent
+                        for f in ("body", "orelse", "finalbody"):
+                            blk = getattr(par, f, None)
+                            if isinstance(blk, list) and encl in blk and outer[0] in blk and blk.index(outer[0]) < blk.index(encl):
+                                dominated = True
+                        encl = par
+                    if len(outer) == 1 and len(stores) == 1 and dominated \
+                            and not any(isinstance(a, (ast.While, ast.For)) for a in _ancestors_upto(st, fn)):
+                        src = "via-outer-local"
                 if len(defs) == 1 and len(alldefs) == 1 and _same(defs[0].value, _load(t)):
                     j = lst.index(defs[0])
                     between = lst[j + 1:i]
@@ -863,6 +934,47 @@ def _norm_block(lst, fn):
                 n += 1
                 i += 1
                 continue
+        # return A if C else B   ->   if C: return A  else: return B
+        if isinstance(st, ast.Return) and isinstance(st.value, ast.IfExp):
+            e = st.value
+            new = ast.If(test=e.test, body=[ast.Return(value=e.body)], orelse=[ast.Return(value=e.orelse)])
+            ast.copy_location(new, st)
+            for r in new.body + new.orelse:
+                ast.copy_location(r, st)
+            ast.fix_missing_locations(new)
+            lst[i] = new
+            n += 1
+            continue
+        # flag = <test>; if flag: / if not flag: / while ...   (flag bound once, used once, in the test of the very next statement)
+        #   ->   the test written in place
+        if isinstance(st, ast.Assign) and len(st.targets) == 1 and isinstance(st.targets[0], ast.Name) \
+                and isinstance(st.value, (ast.Compare, ast.BoolOp, ast.UnaryOp)) and i + 1 < len(lst) and isinstance(lst[i + 1], ast.If):
+            nm = st.targets[0].id
+            occ = [x for x in ast.walk(fn) if isinstance(x, ast.Name) and x.id == nm]
+            in_test = [x for x in ast.walk(lst[i + 1].test) if isinstance(x, ast.Name) and x.id == nm and isinstance(x.ctx, ast.Load)]
+            if len(occ) == 2 and len(in_test) == 1:
+                tgt = in_test[0]
+                nxt = lst[i + 1]
+                # the flag must be the first thing the test evaluates: the test itself, `not flag`, or the leftmost operand
+                holder, field, idx = None, None, None
+                t = nxt.test
+                if t is tgt:
+                    holder, field = nxt, "test"
+                elif isinstance(t, ast.UnaryOp) and t.operand is tgt:
+                    holder, field = t, "operand"
+                elif isinstance(t, ast.BoolOp) and t.values[0] is tgt:
+                    holder, field, idx = t, "values", 0
+                elif isinstance(t, ast.BoolOp) and isinstance(t.values[0], ast.UnaryOp) and t.values[0].operand is tgt:
+                    holder, field = t.values[0], "operand"
+                if holder is not None:
+                    if idx is None:
+                        setattr(holder, field, st.value)
+                    else:
+                        getattr(holder, field)[idx] = st.value
+                    ast.fix_missing_locations(nxt)
+                    del lst[i]
+                    n += 1
+                    continue
         # v = d[k] ... del d[k]   ->   v = d.pop(k)
         if isinstance(st, ast.Assign) and len(st.targets) == 1 and isinstance(st.targets[0], (ast.Name, ast.Tuple)) \
                 and isinstance(st.value, ast.Subscript) and not isinstance(st.value.slice, ast.Slice):
@@ -889,6 +1001,25 @@ def _norm_block(lst, fn):
                 ast.copy_location(call, st)
                 ast.fix_missing_locations(call)
                 lst[i] = call
+                n += 1
+        # while True: v = D.pop(K, SENTINEL); if v is SENTINEL: break; rest   ->   while K in D: v = D.pop(K); rest
+        # (SENTINEL a module-level `object()` that is never stored anywhere: "absent" and "is the sentinel" coincide)
+        if isinstance(st, ast.While) and isinstance(st.test, ast.Constant) and st.test.value is True and not st.orelse and len(st.body) >= 3:
+            a0, a1 = st.body[0], st.body[1]
+            if isinstance(a0, ast.Assign) and len(a0.targets) == 1 and isinstance(a0.targets[0], ast.Name) \
+                    and isinstance(a0.value, ast.Call) and isinstance(a0.value.func, ast.Attribute) and a0.value.func.attr == "pop" \
+                    and len(a0.value.args) == 2 and isinstance(a0.value.args[1], ast.Name) and not a0.value.keywords \
+                    and isinstance(a1, ast.If) and not a1.orelse and len(a1.body) == 1 and isinstance(a1.body[0], ast.Break) \
+                    and isinstance(a1.test, ast.Compare) and len(a1.test.ops) == 1 and isinstance(a1.test.ops[0], ast.Is) \
+                    and isinstance(a1.test.left, ast.Name) and a1.test.left.id == a0.targets[0].id \
+                    and isinstance(a1.test.comparators[0], ast.Name) and a1.test.comparators[0].id == a0.value.args[1].id \
+                    and _is_private_sentinel(fn, a0.value.args[1].id) \
+                    and not any(isinstance(x, ast.Break) and _loop_of(x, st) for b in st.body[2:] for x in ast.walk(b)):
+                key = a0.value.args[0]
+                st.test = ast.Compare(left=copy.deepcopy(key), ops=[ast.In()], comparators=[copy.deepcopy(a0.value.func.value)])
+                a0.value.args = [key]
+                st.body = [a0] + st.body[2:]
+                ast.fix_missing_locations(st)
                 n += 1
         # while True: if not c: break; body   ->   while c: body
         if isinstance(st, ast.While) and isinstance(st.test, ast.Constant) and st.test.value is True and not st.orelse and st.body:
